@@ -226,6 +226,7 @@ def _rest(m, run):
     with run.corroborating(mx_ok, 'MX2', rules=('AG6.face-record', 'AG6.face-index-offset', 'AG6.off-header')):
         ag6(m, run)
     st1(m, run)
+    _sd.fn2(m, run)
     c17.ag5(m, run)
     wn1(m, run)
     off1(m, run)
